@@ -264,11 +264,11 @@ func VerifC19String() {
 		r.MaxLen = proto.Uint64(mx)
 	}
 	hasConst := verif.Bool("hasConst")
-	c := verif.String("const", 3)
+	c := verif.String("const", verif.L(3))
 	if hasConst {
 		r.Const = proto.String(c)
 	}
-	in1 := verif.String("in1", 3)
+	in1 := verif.String("in1", verif.L(3))
 	hasIn := verif.Bool("hasIn")
 	if hasIn {
 		r.In = []string{in1, "zz"}
@@ -295,7 +295,7 @@ func VerifC19String() {
 	f := c19Field(protoreflect.StringKind, false, false, rules)
 	schema := &base.Schema{}
 	extractValidationConstraints(f, schema)
-	v := verif.String("probe", 4)
+	v := verif.String("probe", verif.L(4))
 	// the length enters as an independent number: JSON Schema counts code points, the rule counts
 	// runes (equal on the ASCII alphabet of this check)
 	n := verif.Uint64("probeLen")
